@@ -401,7 +401,7 @@ func (e *Environment) CreateOrSet(name string, val Object, create bool) Object {
 		if ok {
 			log.Infof("Attempt to change constant %s from %v to %v", name, old, val)
 			old = Value(old) // the constant may be reached through a reference to an enclosing scope.
-			if !Equals(old, val) {
+			if !sameConstant(old, Value(val)) {
 				return Error{Value: fmt.Sprintf("attempt to change constant %s from %s to %s", name, old.Inspect(), val.Inspect())}
 			}
 		}
@@ -410,6 +410,31 @@ func (e *Environment) CreateOrSet(name string, val Object, create bool) Object {
 		return Error{Value: fmt.Sprintf("attempt to change internal function %s to %s", name, val.Inspect())}
 	}
 	return e.SetNoChecks(name, val, create)
+}
+
+// sameConstant is Equals() applied strictly to the elements of arrays and maps too: [1, 2.0] isn't [1, 2]
+// (Equals itself compares elements numerically, which would let a constant change the type of its elements).
+func sameConstant(a, b Object) bool {
+	if !Equals(a, b) {
+		return false
+	}
+	switch a.Type() { //nolint:exhaustive // only the containers need more than Equals.
+	case ARRAY:
+		ea, eb := Elements(a), Elements(b)
+		for i := range ea {
+			if !sameConstant(Value(ea[i]), Value(eb[i])) {
+				return false
+			}
+		}
+	case MAP:
+		ma, mb := a.(Map).mapElements(), b.(Map).mapElements()
+		for i := range ma {
+			if !sameConstant(Value(ma[i].Key), Value(mb[i].Key)) || !sameConstant(Value(ma[i].Value), Value(mb[i].Value)) {
+				return false
+			}
+		}
+	}
+	return true
 }
 
 func NewEnclosedEnvironment(outer *Environment) *Environment {
